@@ -1,8 +1,273 @@
-(* C04 — re-keying, moving and cloning carry all data and never clobber another job. *)
-From SV Require Import Base Json MD5 Canon FS Ws CorrC02 CorrC04 C04Proofs.
+(* C04 — re-keying, moving and cloning carry all data and never clobber another job.
+   This file only states theorems; proofs live in SV.C04Proofs / SV.WsInit / SV.FS.
+   The model (SV.Ws) mirrors /repo INCLUDING its defects; where the full property is false of the
+   faithful model the file contains a ..._refuted theorem with a concrete witness, which the harness
+   replays on the real signac (known_findings.d/C04.json). *)
+From SV Require Import Base Json MD5 Canon FS Ws WsLemmas WsInit CorrC02 CorrC04 C04Proofs.
 
+(* ---- the rollback rename restores the exact tree (file-system level) *)
 Theorem C04_rollback_restores_tree : forall f a t c f1 f2,
   get f a = Some (File c) -> get f t = None ->
   rename f a t = FOk f1 -> rename f1 t a = FOk f2 -> fs_eq f2 f.
-Proof. exact rollback_restores. Qed.
+Proof. exact rename_file_roundtrip. Qed.
 Print Assumptions C04_rollback_restores_tree.
+
+(* ---- re-key (_StatePointDict._save), for every way the cell's data came to differ from the id *)
+(* rekey_ok: destination absent OR AN EMPTY DIRECTORY => success; the old id is gone; the new directory holds
+   the new state point file (exactly dumps of the new data), no backup file, the document and every other
+   file byte-identical at the same relative path; every other entry of the tree is unchanged; every handle
+   sharing the cell has the new id and stays in its project; (last conjunct, defect F11) no handle's
+   _cached_statepoint is refreshed. *)
+Theorem C04_rekey_ok : forall frepr w ci cf,
+  let c := getC w ci in
+  let js := c_jobs c in
+  let h0 := getH w (hd 0%nat js) in
+  let old := h_id h0 in
+  let new := calc_id frepr (c_data c) in
+  let wsd := wsp (getS w (h_s h0)) in
+  let src := wsd ++ [old] in
+  let dst := wsd ++ [new] in
+  old <> new ->
+  js <> [] ->
+  (forall j, In j js -> (j < length (w_hs w))%nat /\ h_cell (getH w j) = Some ci /\ h_s (getH w j) = h_s h0) ->
+  get (w_fs w) (src ++ [SPF]) = Some (File cf) ->
+  get (w_fs w) (src ++ [SPT]) = None -> get (w_fs w) (src ++ [TMPPFX ++ SPF]) = None ->
+  get (w_fs w) src = Some Dir -> get (w_fs w) wsd = Some Dir ->
+  (get (w_fs w) dst = None \/ get (w_fs w) dst = Some Dir) -> has_children (w_fs w) dst = false ->
+  exists w', sp_save frepr false w ci = (w', inl tt) /\
+    (forall r, get (w_fs w') (src ++ r) = None) /\
+    get (w_fs w') dst = Some Dir /\
+    get (w_fs w') (dst ++ [SPF]) = Some (File (sp_content frepr (c_data c))) /\
+    get (w_fs w') (dst ++ [SPT]) = None /\
+    (forall x r, x :: r <> [SPF] -> x :: r <> [SPT] -> get (w_fs w') (dst ++ x :: r) = get (w_fs w) (src ++ x :: r)) /\
+    (forall q, under src q = false -> under dst q = false -> get (w_fs w') q = get (w_fs w) q) /\
+    (forall j, In j js -> h_id (getH w' j) = new /\ h_s (getH w' j) = h_s h0) /\
+    (forall k, h_cached (getH w' k) = h_cached (getH w k)).
+Proof. exact rekey_ok. Qed.
+Print Assumptions C04_rekey_ok.
+
+(* rekey_conflict: destination a non-empty directory => DestinationExistsError and THE SAME TREE
+   (extensional equality of the whole file system: both jobs byte-identical), handles and cells untouched *)
+Theorem C04_rekey_conflict : forall frepr susp w ci cf,
+  let c := getC w ci in
+  let h0 := getH w (hd 0%nat (c_jobs c)) in
+  let old := h_id h0 in
+  let new := calc_id frepr (c_data c) in
+  let wsd := wsp (getS w (h_s h0)) in
+  old <> new ->
+  get (w_fs w) (wsd ++ [old; SPF]) = Some (File cf) ->
+  get (w_fs w) (wsd ++ [old; SPT]) = None ->
+  get (w_fs w) (wsd ++ [old]) = Some Dir -> get (w_fs w) wsd = Some Dir ->
+  get (w_fs w) (wsd ++ [new]) = Some Dir -> has_children (w_fs w) (wsd ++ [new]) = true ->
+  exists w', sp_save frepr susp w ci = (w', inr (FExn EDestinationExists)) /\
+    fs_eq (w_fs w') (w_fs w) /\ w_hs w' = w_hs w /\ w_cs w' = w_cs w /\ w_ss w' = w_ss w.
+Proof. exact rekey_conflict. Qed.
+Print Assumptions C04_rekey_conflict.
+
+(* rekey_noop: the new data hashes to the current id => no step at all (the world is returned as is) *)
+Theorem C04_rekey_noop : forall frepr susp w ci,
+  calc_id frepr (c_data (getC w ci)) = h_id (getH w (hd 0%nat (c_jobs (getC w ci)))) ->
+  sp_save frepr susp w ci = (w, inl tt).
+Proof. exact rekey_noop. Qed.
+Print Assumptions C04_rekey_noop.
+
+(* ---- move *)
+Theorem C04_move_ok : forall frepr w h sj w1 ci,
+  sp_access frepr w h = (w1, inl ci) ->
+  let src := jobdir w1 (getH w1 h) in
+  let d := c_data (getC w1 ci) in
+  let dst := wsp (getS w1 sj) ++ [calc_id frepr d] in
+  get (w_fs w) (wsp (getS w1 sj)) = Some Dir ->
+  get (w_fs w) src = Some Dir -> src <> dst -> under src dst = false -> under dst src = false ->
+  (get (w_fs w) dst = None \/ get (w_fs w) dst = Some Dir) -> has_children (w_fs w) dst = false ->
+  (h < length (w_hs w))%nat ->
+  exists w', move frepr w h sj = (w', inl tt) /\
+    (forall r, get (w_fs w') (dst ++ r) = get (w_fs w) (src ++ r)) /\
+    (forall r, get (w_fs w') (src ++ r) = None) /\
+    (forall q, under src q = false -> under dst q = false -> get (w_fs w') q = get (w_fs w) q) /\
+    getH w' h = mkH sj (calc_id frepr d) (Some d) None false.
+Proof. exact move_ok. Qed.
+Print Assumptions C04_move_ok.
+
+Theorem C04_move_conflict : forall frepr w h sj w1 ci,
+  sp_access frepr w h = (w1, inl ci) ->
+  let src := jobdir w1 (getH w1 h) in
+  let dst := wsp (getS w1 sj) ++ [calc_id frepr (c_data (getC w1 ci))] in
+  get (w_fs w) (wsp (getS w1 sj)) = Some Dir ->
+  get (w_fs w) src = Some Dir -> get (w_fs w) dst = Some Dir -> has_children (w_fs w) dst = true ->
+  src <> dst -> under src dst = false ->
+  exists w', move frepr w h sj = (w', inr (FExn EDestinationExists)) /\ w_fs w' = w_fs w /\ w_hs w' = w_hs w1.
+Proof. exact move_conflict. Qed.
+Print Assumptions C04_move_conflict.
+
+Theorem C04_move_uninitialised : forall frepr w h sj w1 ci,
+  sp_access frepr w h = (w1, inl ci) ->
+  get (w_fs w) (wsp (getS w1 sj)) = Some Dir ->
+  get (w_fs w) (jobdir w1 (getH w1 h)) = None ->
+  exists w', move frepr w h sj = (w', inr (FExn ERuntimeError)) /\ w_fs w' = w_fs w /\ w_hs w' = w_hs w1.
+Proof. exact move_uninitialised. Qed.
+Print Assumptions C04_move_uninitialised.
+
+(* ---- clone *)
+(* clone_ok + clone_source_untouched + clone_independent (the copy is a separate sub-tree; the new handle
+   has no cell, so nothing is shared with the source handle) *)
+Theorem C04_clone_ok : forall frepr w sj h w1 ci,
+  sp_access frepr w h = (w1, inl ci) ->
+  let src := jobdir w1 (getH w1 h) in
+  let wsd := wsp (getS w1 sj) in
+  let d := c_data (getC w1 ci) in
+  let dst := wsd ++ [calc_id frepr d] in
+  get (w_fs w) src = Some Dir -> under src dst = false -> under dst src = false ->
+  (forall k, (k <= length wsd)%nat -> get (w_fs w) (firstn k wsd) = Some Dir) ->
+  (forall q, under dst q = true -> get (w_fs w) q = None) ->
+  exists w' hn, clone frepr w sj h = (w', inl hn) /\
+    get (w_fs w') dst = Some Dir /\
+    (forall x r, get (w_fs w') (dst ++ x :: r) = get (w_fs w) (src ++ x :: r)) /\
+    (forall q, under dst q = false -> get (w_fs w') q = get (w_fs w) q) /\
+    getH w' hn = mkH sj (calc_id frepr d) (Some d) None false /\ hn = length (w_hs w1).
+Proof. exact clone_ok. Qed.
+Print Assumptions C04_clone_ok.
+
+(* clone_conflict: ANY existing destination — also an empty directory, where copytree fails *)
+Theorem C04_clone_conflict : forall frepr w sj h w1 ci x,
+  sp_access frepr w h = (w1, inl ci) ->
+  let src := jobdir w1 (getH w1 h) in
+  let wsd := wsp (getS w1 sj) in
+  let dst := wsd ++ [calc_id frepr (c_data (getC w1 ci))] in
+  get (w_fs w) src = Some Dir -> under src dst = false ->
+  (forall k, (k <= length wsd)%nat -> get (w_fs w) (firstn k wsd) = Some Dir) ->
+  get (w_fs w) dst = Some x ->
+  clone frepr w sj h = (w1, inr (FExn EDestinationExists)) /\ w_fs w1 = w_fs w.
+Proof. exact clone_conflict. Qed.
+Print Assumptions C04_clone_conflict.
+
+Theorem C04_clone_uninitialised : forall frepr w sj h w1 ci,
+  sp_access frepr w h = (w1, inl ci) ->
+  get (w_fs w) (jobdir w1 (getH w1 h)) = None ->
+  clone frepr w sj h = (w1, inr (FExn EValueError)) /\ w_fs w1 = w_fs w.
+Proof. exact clone_uninitialised. Qed.
+Print Assumptions C04_clone_uninitialised.
+
+(* ---- update_statepoint without overwrite never alters an existing key *)
+Theorem C04_update_statepoint_no_overwrite : forall frepr w h u w1 ci,
+  sp_access frepr w h = (w1, inl ci) -> update_conflict (c_data (getC w1 ci)) u = true ->
+  update_statepoint frepr w h u false = (w1, inr (FExn EKeyError)) /\
+  w_fs w1 = w_fs w /\ w_tr w1 = w_tr w.
+Proof. exact update_statepoint_no_overwrite. Qed.
+Print Assumptions C04_update_statepoint_no_overwrite.
+
+(* ---- handles_follow.
+   FULL STATEMENT WANTED: after a successful re-key through a handle, every live copy shows id, path,
+   statepoint, cached_statepoint and document of the new job.
+   PROVED (in C04_rekey_ok): id and project (hence path and document file) of every handle in the cell's
+   _jobs list; statepoint is the shared cell.  REFUTED for the code as it is:
+   (1) cached_statepoint still shows the old state point (general form: last conjunct of C04_rekey_ok);
+   (2) a copy.copy taken before the state point was ever accessed is not in _jobs and does not follow. *)
+Theorem C04_handles_follow_cached_refuted :
+  let old := JObj [(kA, JInt 0)] in let new := JObj [(kA, JInt 1)] in
+  run wfr w0 0 [ONewSession wA; OOpenSp 0 old; OInit 0 false; OEdit 0 [] (ESetKey kA (JInt 1));
+                OIdPath 0; OSp 0; OCached 0]
+  = [VUnit; VStr (calc_id wfr old); VUnit; VUnit;
+     VIdPath (calc_id wfr new) (wA ++ [WS; calc_id wfr new]); VJson new; VJson old].
+Proof. exact cached_stale_witness. Qed.
+Print Assumptions C04_handles_follow_cached_refuted.
+
+Theorem C04_handles_follow_early_copy_refuted :
+  let old := JObj [(kA, JInt 0)] in let new := JObj [(kA, JInt 1)] in
+  run wfr w0 0 [ONewSession wA; OOpenSp 0 old; OInit 0 false; ONewSession wA; OOpenId 1 (calc_id wfr old);
+                OCopy 1; OEdit 1 [] (ESetKey kA (JInt 1)); OIdPath 1; OIdPath 2]
+  = [VUnit; VStr (calc_id wfr old); VUnit; VUnit; VStr (calc_id wfr old); VStr (calc_id wfr old); VUnit;
+     VIdPath (calc_id wfr new) (wA ++ [WS; calc_id wfr new]);
+     VIdPath (calc_id wfr old) (wA ++ [WS; calc_id wfr old])].
+Proof. exact early_copy_witness. Qed.
+Print Assumptions C04_handles_follow_early_copy_refuted.
+
+(* ---- "whenever the state point changes by ANY route the job reappears under the new id": refuted for
+   whole assignment / update_statepoint (they go through SyncedDict._update) *)
+Theorem C04_assign_equal_value_refuted :
+  let old := JObj [(kA, JInt 1)] in let new := JObj [(kA, JBool true)] in
+  calc_id wfr old <> calc_id wfr new /\
+  run wfr w0 0 [ONewSession wA; OOpenSp 0 old; OInit 0 false; OAssign 0 new; OIdPath 0; OSp 0; OIds 0]
+  = [VUnit; VStr (calc_id wfr old); VUnit; VUnit;
+     VIdPath (calc_id wfr old) (wA ++ [WS; calc_id wfr old]); VJson old; VStrs [calc_id wfr old]].
+Proof. exact assign_drop_witness. Qed.
+Print Assumptions C04_assign_equal_value_refuted.
+
+Theorem C04_assign_list_refuted :
+  let old := JObj [(kA, JArr [JInt 1; JInt 2])] in let new := JObj [(kA, JArr [JInt 1; JInt 3])] in
+  let w := fst (fst (fold_left (fun st o => fst (step wfr (fst (fst st)) (snd (fst st)) o, VUnit))
+                               [ONewSession wA; OOpenSp 0 old; OInit 0 false; OAssign 0 new] (w0, 0%nat, VUnit))) in
+  run wfr w0 0 [ONewSession wA; OOpenSp 0 old; OInit 0 false; OAssign 0 new; OIds 0]
+  = [VUnit; VStr (calc_id wfr old); VUnit; VExn EJobsCorrupted; VStrs [calc_id wfr new]]
+  /\ get (w_fs w) (wA ++ [WS; calc_id wfr new]) = Some Dir
+  /\ get (w_fs w) (wA ++ [WS; calc_id wfr new; SPF]) = None
+  /\ get (w_fs w) (wA ++ [WS; calc_id wfr new; SPT]) = None
+  /\ get (w_fs w) (wA ++ [WS; calc_id wfr old]) = None.
+Proof. exact assign_list_witness. Qed.
+Print Assumptions C04_assign_list_refuted.
+
+(* ---- licence for the correspondence step (partial).
+   FULL STATEMENT WANTED: forall c, mismatch_C04 c = false -> known_tag ... = 0 -> holds_C04 c = true.
+   PROVED: in the conflict situation the model's own observation satisfies the oracle's conflict clause
+   (exception class DestinationExistsError and tree_same_except [] pre post = true), so an implementation
+   that agrees with the model there satisfies the oracle there; the success clauses of the oracle are the
+   get-level statements of C04_rekey_ok / C04_move_ok / C04_clone_ok.
+   MISSING: the lift of those statements through the list-level oracle (rel_tree / tree_same_except) and
+   over the whole scenario script. *)
+Theorem C04_model_holds_partial : forall frepr susp w ci cf,
+  let c := getC w ci in
+  let h0 := getH w (hd 0%nat (c_jobs c)) in
+  let old := h_id h0 in
+  let new := calc_id frepr (c_data c) in
+  let wsd := wsp (getS w (h_s h0)) in
+  old <> new ->
+  get (w_fs w) (wsd ++ [old; SPF]) = Some (File cf) ->
+  get (w_fs w) (wsd ++ [old; SPT]) = None ->
+  get (w_fs w) (wsd ++ [old]) = Some Dir -> get (w_fs w) wsd = Some Dir ->
+  get (w_fs w) (wsd ++ [new]) = Some Dir -> has_children (w_fs w) (wsd ++ [new]) = true ->
+  let '(w', r) := sp_save frepr susp w ci in
+  out_unit r = VExn EDestinationExists /\ tree_same_except [] (w_fs w) (w_fs w') = true.
+Proof. exact conflict_oracle_clause. Qed.
+Print Assumptions C04_model_holds_partial.
+
+(* ---- non-vacuity: the hypotheses of C04_rekey_ok / C04_rekey_conflict hold in reachable worlds *)
+Definition ex_old : json := JObj [(kA, JInt 0)].
+Definition ex_new : json := JObj [(kA, JInt 1)].
+Definition ex_doc : json := JObj [([100%N], JInt 1)].
+
+(* Project(A); h = open_job({a:0}).init(); h.document = {d:1}; a copy.copy; then the cell's data is set to {a:1} *)
+Definition ex_w_ok : world :=
+  set_data (exec wfr w0 0 [ONewSession wA; OOpenSp 0 ex_old; OInit 0 false; ODocReset 0 ex_doc; OCopy 0]) 0 ex_new.
+
+Example C04_example_rekey_ok_hyps :
+  let w := ex_w_ok in
+  let c := getC w 0 in
+  let wsd := wA ++ [WS] in
+  let src := wsd ++ [calc_id wfr ex_old] in
+  let dst := wsd ++ [calc_id wfr ex_new] in
+  c_jobs c = [0; 1]%nat /\ h_id (getH w 0) = calc_id wfr ex_old /\ calc_id wfr (c_data c) = calc_id wfr ex_new /\
+  calc_id wfr ex_old <> calc_id wfr ex_new /\
+  h_cell (getH w 0) = Some 0%nat /\ h_cell (getH w 1) = Some 0%nat /\ length (w_hs w) = 2%nat /\
+  (exists cf, get (w_fs w) (src ++ [SPF]) = Some (File cf)) /\
+  get (w_fs w) (src ++ [SPT]) = None /\ get (w_fs w) (src ++ [TMPPFX ++ SPF]) = None /\
+  get (w_fs w) src = Some Dir /\ get (w_fs w) wsd = Some Dir /\ get (w_fs w) dst = None /\
+  has_children (w_fs w) dst = false /\
+  (exists cd, get (w_fs w) (src ++ [DOCF]) = Some (File cd)).
+Proof. vm_compute. repeat split; eauto; discriminate. Qed.
+
+(* the same with the destination {a:1} initialised and holding a document: the conflict situation *)
+Definition ex_w_conflict : world :=
+  set_data (exec wfr w0 0 [ONewSession wA; OOpenSp 0 ex_old; OInit 0 false; OOpenSp 0 ex_new; OInit 1 false;
+                           ODocReset 1 ex_doc]) 0 ex_new.
+
+Example C04_example_rekey_conflict_hyps :
+  let w := ex_w_conflict in
+  let wsd := wA ++ [WS] in
+  let old := calc_id wfr ex_old in let new := calc_id wfr ex_new in
+  h_id (getH w (hd 0%nat (c_jobs (getC w 0)))) = old /\ calc_id wfr (c_data (getC w 0)) = new /\ old <> new /\
+  (exists cf, get (w_fs w) (wsd ++ [old; SPF]) = Some (File cf)) /\
+  get (w_fs w) (wsd ++ [old; SPT]) = None /\ get (w_fs w) (wsd ++ [old]) = Some Dir /\
+  get (w_fs w) wsd = Some Dir /\ get (w_fs w) (wsd ++ [new]) = Some Dir /\
+  has_children (w_fs w) (wsd ++ [new]) = true /\
+  snd (sp_save wfr false w 0) = inr (FExn EDestinationExists).
+Proof. vm_compute. repeat split; eauto; discriminate. Qed.
